@@ -423,7 +423,9 @@ impl Mps {
     }
 
     pub fn from_zipped_reader(reader: impl Read) -> Result<Self> {
-        let buf = flate2::read::GzDecoder::new(reader);
+        // A gzip file is a series of members (RFC 1952): `GzDecoder` would stop after the first one
+        // and the rest of the problem would be dropped silently.
+        let buf = flate2::read::MultiGzDecoder::new(reader);
         let buf = io::BufReader::new(buf);
         Self::from_io_lines(buf.lines())
     }
